@@ -243,8 +243,42 @@ def norm_rules(chk, S, r5):
     S.absorb(it)
 
 
+def residual_order_rules(chk, S):
+    """n of dt^n/n! is residual_order - 1: for u^(k) = f(u, ..., u^(k-1)) the residual involves k + 1 Taylor coefficients and the local error of the state is the
+    residual times dt^k/k!; a residual on m coefficients involves m.  The estimators read `constraint.residual_order`; here: every constraint class sets it so."""
+    from ..harness import API, BLOCK, DENSE, ISO, PROBLEMS
+
+    r8 = chk.rule("R-C07-8", "residual_order of every constraint = number of Taylor coefficients its residual involves (ODE of order k: k + 1; residual on m coefficients: m), "
+                  "for every order and every factorisation", floor=12)
+    for mod, ts0, res in ((DENSE, "DenseOdeTs0", "DenseResidual"), (ISO, "IsotropicOdeTs0", "IsotropicResidual"), (BLOCK, "BlockDiagOdeTs0", "BlockDiagResidual")):
+        for k in (1, 2, 3):
+            it = S.interp()
+            ode = it.instantiate(it.class_value(PROBLEMS + ".JetOde"), [A("vf")], dict(jacobian=A("jac"), num_tcoeffs_in_args=k, tcoeff_indices_output=[k]), "<harness>")
+            try:
+                c = it.instantiate(it.class_value(f"{mod}.{ts0}"), [], {"ode": ode}, "<harness>")
+                got = c.fields.get("residual_order")
+            except AnalysisError as e:
+                r8.unknown(f"{ts0} residual_order (ODE order {k})", str(e), mod)
+                continue
+            S.absorb(it)
+            r8.require(got == k + 1, f"{ts0} residual_order (ODE order {k})", f"= {k + 1}", f"residual_order = {T.show(got, 2)} for an ODE of order {k}: the error estimate would be scaled by dt^{{n}}/n! with n = {T.show(got, 2)} - 1 instead of {k}", API)
+        for m in (1, 2, 3):
+            it = S.interp()
+            resid = it.instantiate(it.class_value(PROBLEMS + ".JetResidual"), [A("rfun")], dict(jacobian=A("jac"), num_tcoeffs_in_args=m), "<harness>")
+            try:
+                kw = {"taylor_point": A("tp")} if res == "DenseResidual" else {}
+                c = it.instantiate(it.class_value(f"{mod}.{res}"), [resid], kw, "<harness>")
+                got = c.fields.get("residual_order")
+            except AnalysisError as e:
+                r8.unknown(f"{res} residual_order ({m} coefficients)", str(e), mod)
+                continue
+            S.absorb(it)
+            r8.require(got == m, f"{res} residual_order ({m} coefficients)", f"= {m}", f"residual_order = {T.show(got, 2)} for a residual on {m} coefficients", API)
+
+
 def run(chk, S: Session):
     _run_own(chk, S)
+    residual_order_rules(chk, S)
     from ..harness import borrow
 
     rb = chk.rule("R-C07-B", "clause of this statement decided by a rule of C06 (the dt that scales the error estimate is the dt of the attempted, clipped step)", floor=1)
@@ -252,3 +286,5 @@ def run(chk, S: Session):
     rb2 = chk.rule("R-C07-B2", "the acceptance quantity is a norm over the state's components: residual estimates whose shape matches the reference only by coincidence are rejected "
                    "(guard-table rows of C20 for the residual error estimate, each evaluated under its declared corruption)", floor=2)
     borrow(chk, S, rb2, "C20", lambda r, c: r == "R-C20-1" and c.startswith("residual error estimate") and "single-output" not in c)
+    rb3 = chk.rule("R-C07-B3", "'computed from the previous mean only': the first attempt extrapolates from the state that solver.init returns, which is the updated one when an initial constraint is given (rule of C02)", floor=3)
+    borrow(chk, S, rb3, "C02", lambda r, c: r == "R-C02-2" and "init" in c)
